@@ -9,7 +9,8 @@ RULE = ("engine proc: the real Processor in lock-step (trackProgress) with a scr
         "until answered; histories of 1-3 applications: transactions (real flatbuffers through processBinary/AggregateInto), harvest "
         "triggers with every mask (all, default data, single and combined event categories), replies in any order relative to later "
         "events, restarts, agent queries, clock advances, final CleanExit. Non-trivial = history contains transactions, a trigger and a "
-        "reply; distinct = distinct op lists.")
+        "reply; distinct = distinct op lists."
+        " Probes: one category certainly enabled, data of it in every transaction, 12-16 retryable failures in a row (damaged log events mixed in); transport time-outs among the failure outcomes.")
 ASSUMPTIONS = ['run ids issued by the collector are distinct; one outstanding connect attempt per application', 'daemon-generated metrics other than the Seen/Sent/Dropped rows are filtered out of the comparison', 'a harvest trigger for a run that has already been shut down is not generated']
 EXPLANATION = "L2 processor machine in Lean; every request the real processor makes is compared with the model's; the exactly-once ledger Spec runs on the implementation's requests."
 TECHNIQUE = 'Lean 4 theorems over the regenerated status classification and the MergeFailed attempt counters (bounded attempts by induction) + lock-step correspondence of failure sequences with the real Processor and a per-id send-count / no-resend Spec'
